@@ -39,9 +39,21 @@ impl Perform for Rec {
 
 pub type P = Parser<anstyle_parse::DefaultCharAccumulator>;
 
+thread_local!(static CLONE_TICK: std::cell::Cell<u64> = std::cell::Cell::new(0));
+
 /// advance one byte; a panic inside the parser is data: event {"k":"panic"} and a fresh parser
 pub fn advance(p: &mut P, b: u8) -> Vec<Value> {
     let mut r = Rec(vec![]);
+    // every fifth byte goes to a CLONE of the parser, which then takes the original's place: a copy made at any point of the
+    // stream - inside a sequence, a string, a character - carries everything the original knew
+    let n = CLONE_TICK.with(|c| {
+        c.set(c.get() + 1);
+        c.get()
+    });
+    if n % 5 == 0 {
+        let q = p.clone();
+        *p = q;
+    }
     let res = std::panic::catch_unwind(std::panic::AssertUnwindSafe(|| {
         p.advance(&mut r, b);
     }));
